@@ -178,4 +178,14 @@ Pow2(k) == 2 ^ k
 CombineLens == {0, 1, 2, 7, 8, 9} \cup UNION {{Pow2(k) - 1, Pow2(k), Pow2(k) + 1} : k \in 0..20}
 CombineContents == {"zero", "ff", "rand"}
 TinyBytes == {"00", "01", "80", "FF"}
+
+\* second operands of 2 GiB and more (multipart parts up to 5 GiB, composite checksums beyond 4 GiB).  The lengths
+\* q * 2^30 + d do not fit TLC's 32-bit integers and stay symbolic <<q, d>>; the harness concretises them, takes
+\* zero bytes as the second operand and gets the reference by streaming that many zero bytes through the stdlib hash.
+BigUnit == 1073741824                  \* 2^30
+BigQ == {2, 4, 5, 8, 12}               \* 2^31, 2^32, 5 GiB (largest S3 part), 2^33, 3 * 2^32
+BigD == {-1, 0, 1, 5}
+BigLenA == {0, 9, 65537}
+BigContents == {"rand", "ff"}          \* content of the first operand
+Big64Always == {q \in BigQ : q <= 5}   \* CRC64 (slow to stream) must be evaluated at least for these; all in thorough
 =============================================================================
